@@ -1054,6 +1054,11 @@ def rule_no_wait_cycle(ctx):
                         name = fn.attr if isinstance(fn, ast.Attribute) else (fn.id if isinstance(fn, ast.Name) else '')
                         if name in ('create_task', '_start_task_if_not_closing', 'ensure_future') and x.value.args:
                             a = x.value.args[0]
+                            if isinstance(a, ast.Call) and isinstance(a.func, ast.Name) and a.func.id == 'partial' and \
+                                    a.args:
+                                a = a.args[0]
+                            if isinstance(a, ast.Lambda):
+                                a = a.body
                             if isinstance(a, ast.Call):
                                 a = a.func
                             if isinstance(a, ast.Attribute) and isinstance(a.value, ast.Name) and a.value.id == 'self':
